@@ -301,6 +301,32 @@ class FnSplicer:
             else:
                 self.segs.insert(toks[kwi + 1].end, '<%s: %s>' % (tyname, trait_name), tag + '/dyn-to-generic', order=0)
             self.counts['dyn-to-generic'] = self.counts.get('dyn-to-generic', 0) + 1
+        # Rule 'param-tuple': a function parameter written as a tuple pattern, `(a, b): T`, becomes `verif_pN: T` with
+        # `let (a, b) = verif_pN;` first in the body (Verus accepts only plain parameter names; the same destructuring, under
+        # the same default binding modes)
+        if has_body:
+            k = i + 1
+            n_param = 0
+            depth0_start = True
+            while k < pclose:
+                if depth0_start and toks[k].text == '(':
+                    pe = match_close(toks, k)
+                    if toks[pe + 1].text == ':':
+                        pat = self.src.text[toks[k].start:toks[pe].end]
+                        nm = 'verif_p%d' % n_param
+                        self.segs.rewrite(toks[k].start, toks[pe].end, nm, 'param-tuple')
+                        self.segs.insert(toks[body_open].end, '\n    let %s = %s;' % (pat, nm), tag + '/param-tuple', order=0)
+                        self.counts['param-tuple'] = self.counts.get('param-tuple', 0) + 1
+                    k = pe
+                depth0_start = False
+                if toks[k].text in ('(', '[') :
+                    k = match_close(toks, k)
+                elif toks[k].text == '<':
+                    k = skip_angles(toks, k) - 1
+                elif toks[k].text == ',':
+                    depth0_start = True
+                    n_param += 1
+                k += 1
         for a in spec.get('attrs', []):
             self.segs.insert(toks[start].start, a + '\n', tag + '/attr')
         if spec.get('ret'):
